@@ -38,7 +38,8 @@ PROPS = {
         'decided': 'integrality vector aligned with columns under every call history; '
                    'formulation-time variables are continuous; weight bookkeeping of the power-cone '
                    'tower (padding to a power of two exactly once, children of split() sum to half the '
-                   'degree -- symbolic linear identities)',
+                   'degree -- symbolic linear identities); the multiplier of a scaled atom is spent once, '
+                   'for the power atom as multiplier ** (q/p) on the argument',
         'not_decided': 'exactness of rsocone and of the quadratic encodings, termination of the '
                        'recursion, brute-force agreement (numeric)',
     },
@@ -59,8 +60,8 @@ PROPS = {
     'C10': {
         'rules': ['R11', 'R25'],
         'decided': 'sign calculus of every convex family class x operator over the whole sign '
-                   'domain; comparison guards; bilinear guards',
-        'decided_more': 'the static/adaptive flag `fixed` of a rebuilt DecAffine depends on self.fixed on every path (R25d)',
+                   'domain; comparison guards; bilinear guards; the static/adaptive flag `fixed` of a '
+                   'rebuilt DecAffine depends on self.fixed on every path',
         'not_decided': 'that each atom\'s base function is convex as labelled',
     },
     'C11': {
@@ -84,30 +85,35 @@ PROPS = {
     'C14': {
         'rules': ['R26', 'R17', 'R34'],
         'decided': 'row/label agreement in lp do_math; dual() applies the model sign; y carries '
-                   'pi/upi/lpi for every dual-capable interface',
+                   'pi/upi/lpi for every dual-capable interface; a bound object keeps the order of the '
+                   'indices it was declared with',
         'not_decided': 'each solver\'s sign convention, complementary slackness',
     },
     'C15': {
         'rules': ['R12', 'R13', 'R08', 'R28', 'R34'],
         'decided': '>= is the mirror of <=; reflected operators; equality == two inequalities '
-                   'including the attached set',
+                   'including the attached set; bounds intersect in any order; the values of a bound '
+                   'are broadcast, never recycled',
         'not_decided': 'value-level metamorphic relations',
     },
     'C16': {
         'rules': ['R21'],
-        'decided': 'exports read every formula field; General/Binary sections; sense codes agree',
+        'decided': 'exports read every formula field; General/Binary sections selected by the matching '
+                   'vtype letter; sense codes agree; a leading sign is only stripped when it is a plus',
         'not_decided': 'number formatting, parse-back equality',
     },
     'C17': {
         'rules': ['R20', 'R17'],
         'decided': 'model-identity guard dominates every sink combining two model-bearing '
-                   'operands; objective redefinition and size guards; no shared mutable state',
+                   'operands, also when the store sits in a helper method (then the helper and every '
+                   'caller are judged); objective redefinition and size guards; no shared mutated state',
         'not_decided': 'operator paths outside the sink table',
     },
     'C18': {
         'rules': ['R22', 'R04', 'R07'],
         'decided': 'to_socp derives each field from the same field by prefix-preserving '
-                   'operations, passes lmi through, does not write self',
+                   'operations, passes lmi through, does not write self; the head of every added cone '
+                   'gets lower bound 0',
         'not_decided': 'the 1e-3 accuracy claim',
     },
     'C19': {
@@ -120,7 +126,8 @@ PROPS = {
         'rules': ['R24', 'R03', 'R34'],
         'decided': 'shape law for the constant part of Affine/RoAffine results; operations build new '
                    'objects and never edit their operands in place (NumPy semantics), including through '
-                   'shared sparse buffers (x + 0, csr_matrix(x.linear))',
+                   'shared sparse buffers (x + 0, csr_matrix(x.linear)); bound objects keep index order and '
+                   'broadcast their values',
         'not_decided': 'values, the linear part, selector-matrix index arithmetic',
     },
 }
